@@ -1,7 +1,7 @@
 (* Property C10 — path addressing is exact.  Only statements and [exact]; proofs live in Proofs/KeyPath*.v, Proofs/Hier*.v. *)
 From PG Require Import Common.Tactics Model.KeyPath Model.Hier
   Proofs.KeyPathParse Proofs.KeyPathArith Proofs.KeyPathOrder
-  Proofs.KeyPathSetBase Proofs.KeyPathSetIter Proofs.KeyPathSetThm Proofs.KeyPathSetEq Proofs.KeyPathSetInter Proofs.HierTraverse Proofs.HierQuery Proofs.HierFlatten.
+  Proofs.KeyPathSetBase Proofs.KeyPathSetIter Proofs.KeyPathSetThm Proofs.KeyPathSetEq Proofs.KeyPathSetInter Proofs.HierTraverse Proofs.HierQuery Proofs.HierFlatten Proofs.KeyPathExamples.
 
 (* 1. A key path of admissible keys (integers; non-empty strings with balanced brackets) prints to a string
       that parses back to the same keys.  Any number of keys, any lengths. *)
